@@ -85,6 +85,16 @@ class Run:
         if cfg not in self._progs:
             d = facts.extract(cfg)
             recs = facts.load_dir(d)
+            inlined = []
+            kf = os.path.join(VERIF, "rules", "known_fns.json")
+            if os.path.exists(kf) and not os.environ.get("AGL_NO_INLINE"):
+                from . import inline
+                with open(kf) as fh:
+                    known = set(json.load(fh)["fns"])
+                recs, inlined = inline.inline_new_helpers(recs, known)
+                if inlined:
+                    self.notes.append("cfg %s: new private helper(s) analysed inlined into their callers: %s" % (
+                        cfg, "; ".join("%s -> %s" % (h.replace("alpenglow::", ""), ", ".join("%s x%d" % (c.replace("alpenglow::", ""), k) for c, k in w)) for h, w in inlined)))
             p = mir.Program(recs)
             self._progs[cfg] = p
             cg = p.callgraph()
